@@ -22,7 +22,7 @@
                        a site that calls `executeScopes` on `v` itself (`scopesOnArg`) empties h's pending scopes
         `groupUse`     statement.go BuildCondition `case *DB` (`Where(h)`, Or/Not/Having, inline conditions of
                        Find/First/Delete/Preload/Association) — `groupArgStmt` + `buildCondGroup` of Model/Heap.lean
-  Tie: harness/c06_arg.go — suite "argtie" snapshots the real argument handle by reflection around every argument
+  Tie: harness/c06_zarg.go — suite "argtie" snapshots the real argument handle by reflection around every argument
   use and compares which parts changed with `argChanged` below; suite "arg" is the e2e oracle (no model).
 -/
 import GormModel.Model.Heap
